@@ -61,3 +61,72 @@ async def bounded(coro, loop, max_rounds):
     if exc is not None:
         return "raised", exc
     return "ok", task.result()
+
+
+class DeferredExecutor(concurrent.futures.ThreadPoolExecutor):
+    """A default executor owned by the harness: submitted jobs are only queued; the harness runs them one at a time, inline in
+    the loop thread, in the order it chooses ('fifo' / 'lifo').  A coroutine that awaits each job before submitting the next
+    never has two jobs queued, so the order is irrelevant for it; code that returns to its caller while writes are still queued
+    is caught with the queue in hand.  After `release()` jobs run at once (inline)."""
+
+    def __init__(self, policy="lifo"):
+        super().__init__(max_workers=1)
+        self.policy = policy
+        self.pending = []
+        self.inline = False
+        self.max_queued = 0
+
+    def submit(self, fn, /, *args, **kwargs):
+        fut = concurrent.futures.Future()
+        job = (fut, fn, args, kwargs)
+        if self.inline:
+            self._run(job)
+        else:
+            self.pending.append(job)
+            self.max_queued = max(self.max_queued, len(self.pending))
+        return fut
+
+    @staticmethod
+    def _run(job):
+        fut, fn, args, kwargs = job
+        if not fut.set_running_or_notify_cancel():
+            return
+        try:
+            fut.set_result(fn(*args, **kwargs))
+        except BaseException as e:  # noqa: delivered to the awaiting coroutine, as a worker thread would
+            fut.set_exception(e)
+
+    def run_one(self):
+        if not self.pending:
+            return False
+        self._run(self.pending.pop(0 if self.policy == "fifo" else -1))
+        return True
+
+    def release(self):
+        while self.run_one():
+            pass
+        self.inline = True
+
+
+async def drive_deferred(coro, loop, ex, max_rounds):
+    """like bounded(), for a loop whose default executor is a DeferredExecutor: lets the coroutine run, executes one queued
+    job whenever it is stuck, and returns AS SOON AS the coroutine is done - queued jobs it did not wait for stay queued"""
+    task = loop.create_task(coro)
+    for _ in range(max_rounds * 8):
+        for _ in range(4):
+            if task.done():
+                break
+            await asyncio.sleep(0)
+        if task.done():
+            break
+        ex.run_one()
+    if not task.done():
+        task.cancel()
+        await asyncio.gather(task, return_exceptions=True)
+        return "hang", None
+    if task.cancelled():
+        return "raised", asyncio.CancelledError()
+    exc = task.exception()
+    if exc is not None:
+        return "raised", exc
+    return "ok", task.result()
